@@ -40,8 +40,8 @@ PLAN["C02"] = {
     "assumptions": COMMON_ASSUMPTIONS + ["the product map of Intersection is documented [out]: pre-filled product maps are not part of the domain"],
     "claim": "All pairs of the finite domains through every union/intersection entry point and map-passing mode against the reference; exhaustive within bounds.",
     "technique": "bounded exhaustive enumeration of automata pairs x entry points x map modes against reference union/product",
-    "quick": [("rel", "c02.n2s3k2"), ("rel", "c02.n2s2k3"), ("rel", "c02.trim.n3s3pk3"), ("rel", "c02.trim.n3afhk3")],
-    "thorough": [("rel", "c02.n2s3k3"), ("rel", "c02.n2s2k4"), ("rel", "c02.n3s3pk4"), ("rel", "c02.trim.n3afhk3"), ("rel", "c02.trim.n3s3pk4"), ("rel", "c02.trim.n4s3pk3")],
+    "quick": [("rel", "c02.n2s3k2"), ("rel", "c02.n2s2k3"), ("rel", "c02.trim.n3s3pk3"), ("rel", "c02.trim.n3afhk3"), ("rel", "c02.trim.n3abfk3")],
+    "thorough": [("rel", "c02.n2s3k3"), ("rel", "c02.n2s2k4"), ("rel", "c02.n3s3pk4"), ("rel", "c02.trim.n3afhk3"), ("rel", "c02.trim.n3s3pk4"), ("rel", "c02.trim.n4s3pk3"), ("rel", "c02.trim.n3abfk4")],
     "require": {"all": ["intersection_nonempty", "intersection_empty", "class_empty_operand", "class_useless_states"]},
 }
 
@@ -89,8 +89,8 @@ PLAN["C06"] = {
     "assumptions": COMMON_ASSUMPTIONS + ["states are numbered 0..m-1 as the library's loaders produce them; a sparse-numbering sub-check is run separately"],
     "claim": "Every automaton of the finite domains over every small ranked alphabet and registration order.",
     "technique": "bounded exhaustive enumeration of automata x alphabets x registration orders against reference product-emptiness and universality",
-    "quick": [("rel", "c06.n2sAk2"), ("rel", "c06.n2sLk4"), ("rel", "c06.n2sAFk4"), ("rel", "c06.n2s2k4"), ("rel", "c06.n2s3k3"), ("rel", "c06.n2ahk3"), ("rel", "c06.n2afhk3"), ("rel", "c06.n3agk3"), ("rel", "c06.sparse.n2s2k3"), ("rel", "c06.sparse.n3s2k3")],
-    "thorough": [("rel", "c06.n2sAk2"), ("rel", "c06.n2sLk4"), ("rel", "c06.n2sAFk4"), ("rel", "c06.n2s2k5"), ("rel", "c06.n2s3k4"), ("rel", "c06.n3agk3"), ("rel", "c06.n2ahk3"), ("rel", "c06.n2afhk3"), ("rel", "c06.n3s2k4"), ("rel", "c06.n3s3pk4"), ("rel", "c06.n4agk3"), ("rel", "c06.n3afhk3"), ("rel", "c06.sparse.n2s2k3"), ("rel", "c06.sparse.n3s2k3")],
+    "quick": [("rel", "c06.n2sAk2"), ("rel", "c06.n2sLk4"), ("rel", "c06.n2sAFk4"), ("rel", "c06.n2s2k4"), ("rel", "c06.n2s3k3"), ("rel", "c06.n2ahk3"), ("rel", "c06.n2afhk3"), ("rel", "c06.n3agk3"), ("rel", "c06.n3abfk5"), ("rel", "c06.sparse.n2s2k3"), ("rel", "c06.sparse.n3s2k3")],
+    "thorough": [("rel", "c06.n2sAk2"), ("rel", "c06.n2sLk4"), ("rel", "c06.n2sAFk4"), ("rel", "c06.n2s2k5"), ("rel", "c06.n2s3k4"), ("rel", "c06.n3agk3"), ("rel", "c06.n2ahk3"), ("rel", "c06.n2afhk3"), ("rel", "c06.n3s2k4"), ("rel", "c06.n3s3pk4"), ("rel", "c06.n4agk3"), ("rel", "c06.n3afhk3"), ("rel", "c06.n3abfk5"), ("rel", "c06.n4abfk4"), ("rel", "c06.sparse.n2s2k3"), ("rel", "c06.sparse.n3s2k3")],
     "require": {"all": ["A_universal", "A_not_universal", "A_empty", "class_unused_registered_symbol"]},
 }
 
@@ -258,7 +258,7 @@ PLAN["C08"] = {
     "claim": "All operation histories up to the stated depth over BDD automata that share transition tables, plus exhaustive single calls over the finite domains.",
     "technique": "explicit-state breadth-first search over operation histories of BDD automata sharing transition tables + bounded exhaustive enumeration of single calls",
     "quick": [("rel", "c08.single.n2s2k3"), ("rel", "c08.single.n3s3pk3"), ("rel", "c08.single.ov.n2k4"), ("rel", "c08.pairs.n2s2k2"), ("rel", "c08.pairs.ov.trim.n2k3"), ("rel", "c08.pairs.trim.n3s3pk3"), ("rel", "c08.hist.bu.d4"), ("rel", "c08.hist.td.d4"), ("rel", "c08.hist.bu.seeded1.d3"), ("rel", "c08.hist.td.seeded1.d3"), ("rel", "c08.hist.bu.seeded2.d3")],
-    "thorough": [("rel", "c08.single.n2s3k4"), ("rel", "c08.single.n3s3pk3"), ("rel", "c08.pairs.n2s2k3"), ("rel", "c08.pairs.n2s3k2"), ("rel", "c08.pairs.trim.n3s3pk3"), ("rel", "c08.single.ov.n2k4"), ("rel", "c08.pairs.ov.n2k3"), ("rel", "c08.pairs.ov1.n2k2"), ("rel", "c08.hist.bu.d5"), ("rel", "c08.hist.td.d5"), ("rel", "c08.hist.bu.seeded1.d4"), ("rel", "c08.hist.td.seeded1.d4"), ("rel", "c08.hist.bu.seeded2.d4"), ("rel", "c08.hist.td.seeded2.d3"), ("asan", "c08.hist.bu.d3"), ("asan", "c08.hist.td.d3"), ("asan", "c08.hist.bu.seeded1.d3")],
+    "thorough": [("rel", "c08.single.n2s3k4"), ("rel", "c08.single.n3s3pk3"), ("rel", "c08.pairs.n2s2k3"), ("rel", "c08.pairs.n2s3k2"), ("rel", "c08.pairs.trim.n3s3pk3"), ("rel", "c08.pairs.trim.n3abfk3"), ("rel", "c08.single.n4abfk4"), ("rel", "c08.single.ov.n2k4"), ("rel", "c08.pairs.ov.n2k3"), ("rel", "c08.pairs.ov1.n2k2"), ("rel", "c08.hist.bu.d5"), ("rel", "c08.hist.td.d5"), ("rel", "c08.hist.bu.seeded1.d4"), ("rel", "c08.hist.td.seeded1.d4"), ("rel", "c08.hist.bu.seeded2.d4"), ("rel", "c08.hist.td.seeded2.d3"), ("asan", "c08.hist.bu.d3"), ("asan", "c08.hist.td.d3"), ("asan", "c08.hist.bu.seeded1.d3")],
     "require": {"all": ["transitions_into_sharing_states", "intersection_nonempty", "class_useless_states", "lang_nonempty"]},
 }
 
